@@ -3,7 +3,7 @@
 Also holds the machinery shared with C06 (implementation runner, Gallina printer, oracle for
 "run" cases): C06 quantifies over the same server.
 """
-import logging, struct
+import copy, logging, struct
 from vlib.obs import Err, Abort, guarded, gz, gzlist, gbytes, glist, gopt, gbool
 from ref import sdo_ref_client as R
 
@@ -90,12 +90,28 @@ def make_node(c):
     table = {}
     for i, s, v in reversed(c["rcb"]):
         table[(i, s)] = v
+    rules = [list(x) for x in c.get("wcb", [])]
+    peek = c.get("peek", False)
+    def refuse(act):
+        from canopen.sdo.exceptions import SdoAbortedError
+        if "abort" in act:
+            raise SdoAbortedError(act["abort"])
+        raise ValueError("application callback failed")
     def rcb(index, subindex, od, **kw):
         log.append([0, index, subindex])
         v = table.get((index, subindex))
+        if v is not None and ("abort" in v or "exc" in v):
+            refuse(v)
         return None if v is None else py_value(v, od.data_type)
     def wcb(index, subindex, od, data, **kw):
-        log.append([1, index, subindex, bytes(data)])
+        e = [1, index, subindex, bytes(data)]
+        if peek:       # what the node holds while the callback runs (the callback may still refuse the write)
+            old = node.data_store.get(index, {}).get(subindex)
+            e.append(None if old is None else bytes(old))
+        log.append(e)
+        for i, s, m, act in rules:
+            if (i, s) == (index, subindex) and (m is None or bytes(m) == bytes(data)):
+                refuse(act)
     node.add_read_callback(rcb)
     node.add_write_callback(wcb)
     for i, s, b in reversed(c["store"]):
@@ -129,6 +145,10 @@ def trace_obs(tr):
     return [len(tr), h, bytes(tr[0]) if tr else b""]
 
 
+def c_kind(c, idx):
+    return next(o["kind"] for o in c["dict"] if o["index"] == idx)
+
+
 def run_impl(c):
     net, node, log, step = make_node(c)
     out = []
@@ -137,6 +157,36 @@ def run_impl(c):
         if op[0] == "f":
             rs, raised = step(bytes(op[1]))
             out.append([list(rs), raised, log[n0:]])
+        elif op[0] == "b":
+            # raw frames fed back to back as a receive thread would: nothing is kept or allocated between two requests
+            # (responses are copied into one bytearray), so objects created for one request are really gone at the next
+            frames = [bytearray(f) for f in op[1]]
+            n = len(frames)
+            cnt, rz, lg, buf = [0] * n, [False] * n, [0] * (n + 1), bytearray()
+            lg[0] = len(log)
+            for k in range(n):
+                net.sent.clear()
+                try:
+                    net.notify(0x600 + NODE_ID, frames[k], 0.0)
+                except Exception:  # noqa: BLE001
+                    rz[k] = True
+                cnt[k] = len(net.sent)
+                for _, d in net.sent:
+                    buf.append(len(d))
+                    buf.extend(d)
+                lg[k + 1] = len(log)
+            pos = 0
+            for k in range(n):
+                rs = []
+                for _ in range(cnt[k]):
+                    rs.append(bytes(buf[pos + 1:pos + 1 + buf[pos]]))
+                    pos += 1 + buf[pos]
+                out.append([rs, rz[k], log[lg[k]:lg[k + 1]]])
+        elif op[0] == "od":
+            o_ = node.object_dictionary[op[1]]
+            v_ = o_ if c_kind(c, op[1]) == "var" else o_.subindices[op[2]]
+            setattr(v_, op[3], py_value(op[4], v_.data_type))
+            out.append([])
         elif op[0] == "u":
             r, tr = R.ref_upload(step, op[1], op[2])
             out.append([r] + trace_obs(tr) + [log[n0:]])
@@ -186,7 +236,7 @@ def coq_case(c):
     if c["kind"] == "run":
         rcb = glist([f"({gz(i)}, ({gz(s)}, {g_pyval(v)[6:-1]}))" for i, s, v in c["rcb"]])
         st = glist([f"({gz(i)}, ({gz(s)}, {gzlist(b)}))" for i, s, b in c["store"]])
-        return f"CRun {g_dict(c['dict'])} {rcb} {st} {glist([g_op(o) for o in c['ops']])}"
+        return f"CRun {g_dict(c['dict'])} {rcb} {st} {glist([g_op(o) for o in flat_ops(c['ops'])])}"
     return COQ_EXTRA[c["kind"]](c)
 
 
@@ -196,6 +246,23 @@ COQ_EXTRA = {}
 # ------------------------------------------------------------------ oracle (property text; independent of model and library)
 def _writes(delta):
     return [(e[1], e[2], bytes(e[3])) for e in delta if e[0] == 1]
+
+
+def _accepted(ref, w):
+    """write-callback invocations that the application did not refuse"""
+    return [(i, s, b) for i, s, b in w if ref.veto(i, s, b) is None]
+
+
+def _peek_failure(ref, delta, where):
+    """a write callback runs BEFORE the write takes effect (it may refuse it): the node still holds the old value"""
+    for e in delta:
+        if e[0] == 1 and len(e) >= 5:
+            old = ref.store.get((e[1], e[2]))
+            if e[4] != old:
+                return ("callback_saw_write_already_stored",
+                        f"{where}: while the write callback for {e[1]:04X}:{e[2]:02X} <- {bytes(e[3]).hex()} ran the node held "
+                        f"{None if e[4] is None else bytes(e[4]).hex()}, value before the write: {None if old is None else old.hex()}")
+    return None
 
 
 def violation_sig(prefix, r):
@@ -211,6 +278,7 @@ class Tracker:
 
     def __init__(self):
         self.state = None          # None | ("up", t) | ("down", t, mux | None, bytes so far | None)
+        self.up = None             # None | [mux, expected bytes, bytes served so far, toggle]: a raw-frame upload being judged
 
     def expect(self, req):
         """abort code that the standard demands for this request in the tracked state, or None"""
@@ -228,6 +296,54 @@ class Tracker:
         if (st and st[0] == "down" and st[3] is not None and len(req) == 8 and req[0] // 32 == 0
                 and (req[0] // 16) % 2 == st[1] and req[0] % 2 == 1):
             return st[2], st[3] + bytes(req[1:8 - (req[0] // 2) % 8])
+        return None
+
+    def reset(self):
+        self.state = None
+        self.up = None
+
+    def judge_upload(self, req, rs, ref, where):
+        """an upload driven by raw frames must serve exactly the entry's value: expedited payload, announced size and
+        the concatenation of the segments.  Followed only while nothing but its own segment requests arrives."""
+        ccs = req[0] // 32
+        r = rs[0] if len(rs) == 1 and len(rs[0]) == 8 else None
+        up, self.up = getattr(self, "up", None), None
+        if r is None:
+            return None
+        def wrong(mux, got, exp):
+            sig = "upload_empty_value_wrong" if len(exp) == 0 else "upload_wrong_bytes"
+            if ref.veto(mux[0], mux[1], bytes(got)) is not None:
+                sig = "refused_write_served"
+            return (sig, f"{where}: raw-frame upload {mux[0]:04X}:{mux[1]:02X}: got {len(got)} bytes {bytes(got)[:24].hex()}, expected {len(exp)} bytes {exp[:24].hex()}")
+        if ccs in (2, 5) and len(req) >= 4:
+            mux = R.frame_mux(req)
+            kind, exp = ref.expected_upload(*mux)
+            if kind != "data":
+                return None
+            if r[0] == 0x80:
+                return ("upload_refused", f"{where}: raw-frame upload {mux[0]:04X}:{mux[1]:02X} aborted with 0x{int.from_bytes(r[4:8], 'little'):08X}, expected {len(exp)} bytes {exp[:16].hex()}")
+            if r[0] // 32 != 2:
+                return None
+            if (r[0] // 2) % 2 == 1:
+                n = (r[0] // 4) % 4 if r[0] % 2 == 1 else 0
+                if bytes(r[4:8 - n]) != exp:
+                    return wrong(mux, r[4:8 - n], exp)
+            else:
+                if r[0] % 2 != 1:
+                    return ("size_not_announced", f"{where}: initiate response {bytes(r).hex()}")
+                if int.from_bytes(r[4:8], "little") != len(exp):
+                    return ("upload_size_wrong", f"{where}: raw-frame upload {mux[0]:04X}:{mux[1]:02X}: announced {int.from_bytes(r[4:8], 'little')} bytes, the value has {len(exp)}: {bytes(r).hex()}")
+                self.up = [mux, exp, b"", 0]
+        elif ccs == 3 and up is not None and r[0] != 0x80 and r[0] // 32 == 0 and (req[0] // 16) % 2 == up[3]:
+            mux, exp, got, t = up
+            got = got + bytes(r[1:8 - (r[0] // 2) % 8])
+            if r[0] % 2 == 1:
+                if got != exp:
+                    return wrong(mux, got, exp)
+            elif len(got) >= len(exp) and got != exp[:len(got)] or len(got) > len(exp):
+                return wrong(mux, got, exp)
+            else:
+                self.up = [mux, exp, got, 1 - t]
         return None
 
     def update(self, req, rs):
@@ -260,6 +376,17 @@ class Tracker:
             self.state = None
 
 
+def flat_ops(ops):
+    """a burst ["b", [frame, ...]] is a run of raw frames fed back to back (one observation per frame)"""
+    out = []
+    for op in ops:
+        if op[0] == "b":
+            out += [["f", f] for f in op[1]]
+        else:
+            out.append(op)
+    return out
+
+
 def oracle(c, o):
     return oracle_run(c, o, refusals=False)
 
@@ -271,20 +398,31 @@ def oracle_run(c, o, refusals):
         return ORACLE_EXTRA[c["kind"]](c, o)
     if isinstance(o, Err):
         return ("harness_crash", repr(o))
-    ref = R.RefNode(c["dict"], c["rcb"], c["store"])
+    ref = R.RefNode(copy.deepcopy(c["dict"]), c["rcb"], c["store"], c.get("wcb", []))
     cur = (0, 0)
     trk = Tracker()
     per_op, store, _last = o
-    for k, (op, ob) in enumerate(zip(c["ops"], per_op)):
+    deferred = None
+    for k, (op, ob) in enumerate(zip(flat_ops(c["ops"]), per_op)):
         where = f"op {k} {op[0]}"
-        if op[0] == "f":
+        if op[0] == "od":
+            # the application changes default / parameter value of a declared entry at run time
+            for ob_ in ref.dic:
+                if ob_["index"] == op[1]:
+                    for e_ in ob_["subs"]:
+                        if e_["sub"] == op[2] or ob_["kind"] == "var":
+                            e_[op[3]] = op[4]
+            trk.reset()
+        elif op[0] == "f":
             rs, raised, delta = ob
             req = bytes(op[1])
             f = R.resp_wf(cur, req, rs, raised)
             if f is not None:
                 return (f[0], f"{where}: {f[1]}")
             w = _writes(delta)
-            if rs and rs[0][0] == 0x80 and w:
+            wa = _accepted(ref, w)
+            deferred = deferred or _peek_failure(ref, delta, where)
+            if rs and rs[0][0] == 0x80 and wa:
                 return ("aborted_request_wrote", f"{where}: request {req.hex()} was aborted but the write callback saw {w}")
             if refusals and len(req) >= 1:
                 code = trk.expect(req)
@@ -298,11 +436,19 @@ def oracle_run(c, o, refusals):
                 # a segmented download driven by raw frames (segments may be partly filled anywhere)
                 (fi, fs), fdata = fin
                 fwhat = f"{where}: final segment {req.hex()} of a raw-frame download {fi:04X}:{fs:02X}, {len(fdata)} bytes {fdata[:24].hex()} in partly filled segments"
-                if rs and rs[0][0] == 0x80:
+                aborted = bool(rs) and rs[0][0] == 0x80
+                if ref.veto(fi, fs, fdata) is not None:
+                    if not aborted:
+                        return ("callback_refusal_ignored", f"{fwhat}: the write callback refused the value but the server confirmed the download")
+                elif aborted:
                     return ("download_refused", f"{fwhat}: aborted with 0x{int.from_bytes(rs[0][4:8], 'little'):08X}")
                 if w != [(fi, fs, fdata)]:
                     return ("segment_data_wrong", f"{fwhat}: write callbacks saw {[(i, s, b.hex()) for i, s, b in w]}")
-            for i, s, b in w:
+            if len(req) >= 1:
+                uf = trk.judge_upload(req, rs, ref, where)
+                if uf is not None:
+                    return uf
+            for i, s, b in wa:
                 ref.store[(i, s)] = b
             if len(req) >= 1:
                 trk.update(req, rs)
@@ -310,7 +456,7 @@ def oracle_run(c, o, refusals):
         elif op[0] == "u":
             r, ntr, _h, tr0, delta = ob
             idx, sub = op[1], op[2]
-            trk.state = None
+            trk.reset()
             what = f"{where}: upload {idx:04X}:{sub:02X}"
             if _writes(delta):
                 return ("upload_invoked_write_callback", what)
@@ -322,6 +468,8 @@ def oracle_run(c, o, refusals):
                     return ("upload_refused", f"{what}: aborted with {r!r}, expected {len(exp)} bytes {exp[:16].hex()}")
                 if bytes(r) != exp:
                     sig = "upload_empty_value_wrong" if len(exp) == 0 else "upload_wrong_bytes"
+                    if ref.veto(idx, sub, bytes(r)) is not None:
+                        sig = "refused_write_served"      # bytes that the application's write callback rejected
                     return (sig, f"{what}: got {len(r)} bytes {bytes(r)[:24].hex()}, expected {len(exp)} bytes {exp[:24].hex()}")
                 if ntr and tr0[0] & 1 != 1:
                     return ("size_not_announced", f"{what}: initiate response {tr0.hex()}")
@@ -334,7 +482,7 @@ def oracle_run(c, o, refusals):
         else:
             r, ntr, _h, tr0, delta = ob
             idx, sub, data, mode = op[1], op[2], bytes(op[3]), op[4]
-            trk.state = None
+            trk.reset()
             what = f"{where}: download {idx:04X}:{sub:02X} {len(data)} bytes mode {mode}"
             w = _writes(delta)
             kind, exp = ref.expected_download(idx, sub, data)
@@ -342,7 +490,16 @@ def oracle_run(c, o, refusals):
                 if r.kind == R.V_USAGE:
                     continue
                 return (violation_sig("download_violation", r), f"{what}: {R.VNAMES.get(r.kind, r.kind)}; {ntr} responses, first {tr0.hex()}")
-            if kind == "ok":
+            deferred = deferred or _peek_failure(ref, delta, what)
+            veto = ref.veto(idx, sub, data) if kind == "ok" else None
+            if veto is not None:
+                # the application's write callback rejects this value: the transfer must be aborted (with the
+                # callback's code if it gave one) and the node must stay as it was
+                if not isinstance(r, Abort):
+                    return ("callback_refusal_ignored", f"{what}: the write callback refused the value but the transfer succeeded")
+                if "abort" in veto and r.code != veto["abort"]:
+                    return ("callback_refusal_wrong_code", f"{what}: abort 0x{r.code:08X}, the callback raised 0x{veto['abort']:08X}")
+            elif kind == "ok":
                 if isinstance(r, Abort):
                     return ("download_refused", f"{what}: aborted with {r!r}")
                 if w != [(idx, sub, data)]:
@@ -357,16 +514,20 @@ def oracle_run(c, o, refusals):
                     return ("refused_write_reached_callback", f"{what}: write callbacks saw {w}")
             else:
                 # C02 says nothing about refusals; an aborted transfer must still have told the callbacks nothing
-                if isinstance(r, Abort) and w:
+                wa = _accepted(ref, w)
+                if isinstance(r, Abort) and wa:
                     return ("aborted_request_wrote", f"{what}: aborted with {r!r} but the write callback saw {w}")
-                for i, s, b in w:
+                for i, s, b in wa:
                     ref.store[(i, s)] = b
             cur = (idx, sub)
     got = {(i, s): bytes(b) for i, s, b in store}
     if got != ref.store:
         diff = {k: (got.get(k), ref.store.get(k)) for k in set(got) | set(ref.store) if got.get(k) != ref.store.get(k)}
+        refused = [k for k, (g, e) in diff.items() if g is not None and ref.veto(k[0], k[1], g) is not None]
+        if refused:
+            return ("refused_write_stored", f"data_store holds values that the write callback refused: { {k: diff[k] for k in refused} }")
         return ("store_differs_from_transfers", f"data_store vs accepted downloads: {diff}")
-    return None
+    return deferred
 
 
 ORACLE_EXTRA = {}
@@ -631,6 +792,103 @@ def partial_segment_cases(rng, n):
     return out
 
 
+def callback_cases(rng, n):
+    """application callbacks that refuse: a write callback raising SdoAbortedError(code) (or failing) for chosen
+    (index, sub, value) must leave the node as it was - the next upload returns the old value -, and while a write
+    callback runs the node still holds the old value (peek).  Read callbacks that raise are answered by one abort.
+    Implementation + oracle only (model: False): the Coq model has no raising callbacks."""
+    out = []
+    for k in range(n):
+        code = rng.choice([0x06090030, 0x06090031, 0x08000020, 0x08000022, 0x06010002, rng.getrandbits(32)])
+        bad2 = rbytes(rng, 2)
+        badn = rbytes(rng, rng.choice([1, 3, 4, 5, 7, 8, 9, 15]))
+        dic = [var(0x2001, R.DOMAIN, default={"b": rbytes(rng, rng.choice([0, 2, 5, 9]))}), var(0x2002, 0x06, default={"i": rng.randrange(65536)}),
+               var(0x2003, R.OCTET), var(0x2005, 0x07, value={"i": 77}),
+               dict(index=0x2004, kind="arr", subs=[entry(0, 0x05, "ro", default={"i": 2}), entry(1, 0x06, "rw", default={"i": 258})])]
+        act = {"abort": code} if rng.random() < 0.8 else {"exc": 1}
+        wcb = [[0x2001, 0, badn, act], [0x2002, 0, bad2, {"abort": code}], [0x2003, 0, None, act], [0x2004, 5, bad2, act]]
+        good2 = [b for b in (rbytes(rng, 2), rbytes(rng, 2)) if b != bad2] or [[bad2[0] ^ 1, bad2[1]]]
+        segm = lambda: rng.choice([2, 3])
+        ops = [["u", 0x2001, 0], ["d", 0x2001, 0, badn, (0 if len(badn) <= 4 and rng.random() < 0.5 else segm())], ["u", 0x2001, 0],
+               ["d", 0x2001, 0, rbytes(rng, len(badn) + 1), segm()], ["u", 0x2001, 0], ["d", 0x2001, 0, badn, segm()], ["u", 0x2001, 0],
+               ["u", 0x2002, 0], ["d", 0x2002, 0, bad2, rng.choice([0, 2, 3])], ["u", 0x2002, 0], ["d", 0x2002, 0, good2[0], 0], ["u", 0x2002, 0],
+               ["d", 0x2002, 0, bad2, rng.choice([0, 2, 3])], ["u", 0x2002, 0],
+               ["d", 0x2003, 0, rbytes(rng, 3), 0], ["u", 0x2003, 0], ["d", 0x2003, 0, rbytes(rng, 10), 2], ["u", 0x2003, 0],
+               ["d", 0x2004, 5, good2[0], 0], ["d", 0x2004, 5, bad2, rng.choice([0, 3])], ["u", 0x2004, 5],
+               ["d", 0x2005, 0, rbytes(rng, 4), 1], ["u", 0x2005, 0]]
+        if k % 3 == 0:   # the same through raw frames: expedited write, then segmented write in partly filled segments
+            ops += [["f", [0x2B, 2, 0x20, 0] + bad2 + [0, 0]], ["u", 0x2002, 0]]
+            ops += [["f", f] for f in seg_frames_of(0x2001, 0, [badn[:3], badn[3:10], badn[10:]], True)] + [["u", 0x2001, 0]]
+        rcb = []
+        if k % 4 == 1:
+            rcb = [(0x2005, 0, {"abort": code}), (0x2003, 0, {"exc": 1})]
+        if k % 5 == 4:
+            ops = [rng.choice(ops) for _ in range(len(ops))]
+        out.append(run_case(dic, ops, rcb, [], wcb=wcb, peek=True, model=False))
+    return out
+
+
+def array_template_cases(rng, n):
+    """several arrays with different data types / defaults whose members above sub 1 are not declared and are
+    answered from member 1: every upload must return the default of ITS array, whatever was uploaded before
+    (one after the other, through the reference client and through raw frames)"""
+    out = []
+    for k in range(n):
+        kinds = [(0x05, lambda: {"i": rng.randrange(256)}), (0x07, lambda: {"i": rng.getrandbits(32)}), (0x06, lambda: {"i": rng.randrange(65536)}),
+                 (R.VISIBLE, lambda: {"s": [rng.randrange(65, 91) for _ in range(rng.choice([3, 5, 12]))]}), (R.DOMAIN, lambda: {"b": rbytes(rng, rng.choice([1, 6, 9]))}),
+                 (0x1B, lambda: {"i": rng.getrandbits(64)}), (R.OCTET, lambda: {"b": rbytes(rng, 4)})]
+        rng.shuffle(kinds)
+        arrs = []
+        for j, (dt, mk) in enumerate(kinds[:rng.randrange(2, 6)]):
+            m1 = entry(1, dt, rng.choice(["rw", "ro", "const"]), default=mk())
+            if rng.random() < 0.3:
+                m1["value"] = mk()        # the parameter value of member 1 is NOT inherited by the other members
+            arrs.append(dict(index=0x2100 + 0x100 * j, kind="arr", subs=[entry(0, 0x05, "ro", default={"i": 8}), m1]))
+        ops = []
+        for _ in range(rng.randrange(3, 8)):
+            a = rng.choice(arrs)
+            sub = rng.choice([2, 3, 8, 255, 2, 1])
+            k = rng.random()
+            if k < 0.4:
+                ops.append(["u", a["index"], sub])
+            else:
+                # back-to-back requests for synthesised members of different arrays (each upload run to its end)
+                fr = []
+                for _ in range(rng.randrange(2, 9)):
+                    b = rng.choice(arrs)
+                    sb = rng.choice([2, 3, 4, 9, 200, 255])
+                    fr.append([0x40, b["index"] & 255, b["index"] >> 8, sb, 0, 0, 0, 0])
+                    nb = len(R.encode_value(b["subs"][1]["dt"], b["subs"][1]["default"]))
+                    if nb > 4:
+                        fr += [[0x60 | ((j % 2) << 4), 0, 0, 0, 0, 0, 0, 0] for j in range((nb + 6) // 7)]
+                ops.append(["b", fr])
+        out.append(run_case(arrs, ops))
+    return out
+
+
+def od_change_cases(rng, n):
+    """the application changes the default / parameter value of a declared entry at run time (public attributes of
+    the dictionary entry): later uploads serve the current value, with the usual precedence.
+    Implementation + oracle only (model: False)."""
+    out = []
+    for _ in range(n):
+        dt = rng.choice([0x05, 0x06, 0x07, R.DOMAIN, R.VISIBLE, R.OCTET])
+        dic = [var(0x2000, dt, default=typed_value(rng, dt)), var(0x2001, dt, value=typed_value(rng, dt), default=typed_value(rng, dt)),
+               dict(index=0x2002, kind="rec", subs=[entry(0, 0x05, "ro", default={"i": 1}), entry(1, dt, "rw", default=typed_value(rng, dt))]),
+               dict(index=0x2003, kind="arr", subs=[entry(0, 0x05, "ro", default={"i": 4}), entry(1, dt, "rw", default=typed_value(rng, dt))])]
+        ops = []
+        for _ in range(rng.randrange(3, 8)):
+            idx, sub = rng.choice([(0x2000, 0), (0x2001, 0), (0x2002, 1), (0x2003, 1)])
+            ops += [["u", idx, sub], ["od", idx, sub, rng.choice(["default", "value"]), rng.choice([typed_value(rng, dt), typed_value(rng, dt), None])], ["u", idx, sub]]
+            if idx == 0x2003:
+                ops += [["u", 0x2003, rng.choice([2, 3, 7])]]
+            if rng.random() < 0.3:
+                nb = R.NUMERIC_BYTES.get(dt) or 3
+                ops += [["d", idx, sub, rbytes(rng, nb), 0 if nb <= 4 else 2], ["u", idx, sub]]
+        out.append(run_case(dic, ops, model=False))
+    return out
+
+
 def long_cases(rng, lengths):
     out = []
     for n in lengths:
@@ -651,6 +909,9 @@ def gen_cases(rng, tier):
         cases.append(history_case(rng, rng.randrange(2, 12)))
     for _ in range(ng):
         cases.append(garbage_case(rng, rng.randrange(1, 12)))
+    cases += callback_cases(rng, {"quick": 40, "thorough": 400, "search": 200}[tier])
+    cases += array_template_cases(rng, {"quick": 80, "thorough": 800, "search": 300}[tier])
+    cases += od_change_cases(rng, {"quick": 30, "thorough": 300, "search": 100}[tier])
     cases += partial_segment_cases(rng, {"quick": 60, "thorough": 600, "search": 300}[tier])
     if tier == "quick":
         cases += long_cases(rng, [70, 127, 700])
@@ -669,6 +930,10 @@ def shrink(c):
     ops = c["ops"]
     for i in range(len(ops)):
         yield dict(c, ops=ops[:i] + ops[i + 1:])
+    for i, op in enumerate(ops):        # frames of a burst
+        if op[0] == "b" and len(op[1]) > 1:
+            for j in range(len(op[1])):
+                yield dict(c, ops=ops[:i] + [["b", op[1][:j] + op[1][j + 1:]]] + ops[i + 1:])
     for i in range(len(ops) - 1):       # two consecutive segments at once keep the toggle sequence intact
         if ops[i][0] == "f" and ops[i + 1][0] == "f":
             yield dict(c, ops=ops[:i] + ops[i + 2:])
